@@ -570,8 +570,18 @@ pub fn set_yield_fn(f: Option<YieldFn>) {
     YIELD_FN.with(|y| *y.borrow_mut() = f);
 }
 
+thread_local! {
+    // `Atom::as_ptr` is also reached from inside the table's own hash lookups, whose number
+    // depends on the per-process hash seed: only reads made on behalf of the harness yield.
+    static AS_PTR_YIELDS: Cell<bool> = const { Cell::new(false) };
+}
+
 #[inline]
 pub(crate) fn yield_point(site: u32, aux: usize) {
+    if site == site::AS_PTR && !AS_PTR_YIELDS.get() {
+        return;
+    }
+
     YIELD_FN.with(|y| {
         if let Ok(y) = y.try_borrow() {
             if let Some(f) = y.as_ref() {
@@ -626,12 +636,18 @@ impl AtomTableHandle {
 
 /// Text of the atom with raw index `index`.
 pub fn atom_text(index: u64) -> String {
-    Atom::from(index).as_str().to_string()
+    AS_PTR_YIELDS.set(true);
+    let text = Atom::from(index).as_str().to_string();
+    AS_PTR_YIELDS.set(false);
+    text
 }
 
 /// Length in bytes of the atom with raw index `index`.
 pub fn atom_len(index: u64) -> usize {
-    Atom::from(index).len()
+    AS_PTR_YIELDS.set(true);
+    let len = Atom::from(index).len();
+    AS_PTR_YIELDS.set(false);
+    len
 }
 
 // ---------------------------------------------------------------------------
